@@ -11,9 +11,12 @@
    "H" hexadecimal page numbers (1F vs 25, A0 ...), page FF
    "C" character sets: every character-set code x all 13 national-option positions, sets switching between instances,
        colour / size codes, text outside the box, parity errors *)
-EXTENDS Teletext
+EXTENDS Teletext, IOUtils
 CONSTANT FAM
 VARIABLES st, op
+
+\* GEN_WIDE=1 (thorough tier): the families range over the whole space of rendering choices / wider truth sets
+Wide == "GEN_WIDE" \in DOMAIN IOEnv /\ IOEnv.GEN_WIDE = "1"
 vars == <<st, op>>
 
 Ch(v) == [k |-> "ch", v |-> v]
@@ -106,7 +109,8 @@ CasesC == {[st |-> Stream(T(1, TRUE, cs, <<<<20, RN>>, <<21, r>>>>) \o T(2, TRUE
 \* header) or carrying one of two rows, x 1..3 units per PES: an empty instance before, between and after the
 \* non-empty ones, several in a row
 KindsI == <<<<>>, <<<<20, RA>>>>, <<<<22, RC>>>>>>
-CasesI == {[st |-> Stream(Flat([i \in 1..4 |-> T(i, TRUE, 0, KindsI[q[i]])]), g), op |-> Opt(100, 0)] : q \in [1..4 -> 1..3], g \in {1, 2, 3}}
+NI == IF Wide THEN 6 ELSE 4
+CasesI == {[st |-> Stream(Flat([i \in 1..NI |-> T(i, TRUE, 0, KindsI[q[i]])]), g), op |-> Opt(100, 0)] : q \in [1..NI -> 1..3], g \in (IF Wide THEN 1..4 ELSE {1, 2, 3})}
 
 Cases(fam) == CASE fam = "I" -> CasesI [] fam = "S" -> CasesS [] fam = "P" -> CasesP [] fam = "E" -> CasesEOK [] fam = "A" -> CasesA [] fam = "H" -> CasesH [] fam = "C" -> CasesC
 
